@@ -71,12 +71,15 @@ class Lib(BaseDictObject):
     # --------------
 
     def getParent(self):
-        if self._font is not None:
-            return self.font
+        # _font, _layerSet and _layer also cache the answers of the
+        # font, layerSet and layer attributes of a glyph or layer lib,
+        # so the owner must be looked for from the bottom up
+        if self._glyph is not None:
+            return self.glyph
         elif self._layer is not None:
             return self.layer
-        elif self._glyph is not None:
-            return self.glyph
+        elif self._font is not None:
+            return self.font
         return None
 
     def _get_font(self):
